@@ -238,6 +238,7 @@ def run(ctx):
            line=adv_blocks[0][1] if adv_blocks else emit.line)
     c015(ctx)
     c017(ctx)
+    c018(ctx)
 
 
 # ---------------------------------------------------------------------- C01.5 seq cell typestate
@@ -449,3 +450,61 @@ def c017(ctx):
         ctx.ob('C01.7', rs, 'seq-written-back:' + s.name, not bad,
                '%s borrows the local seq; %s' % (s.name, 'every feasible path into the kernel loop passes Session::set_seq' if not bad else
                                                   'the kernel next_event loop is reachable WITHOUT Session::set_seq: the kernel repeats seqs already used'), line=s.line)
+
+
+# ---------------------------------------------------------------------- C01.8 cancellation safety of seq-stamped emission
+RACERS = r'^tokio::time::timeout::timeout(_at)?$|^futures_util::future::select::select$|^futures_util::future::select_all|^futures_util::future::select_ok|^futures_util::future::abortable|^futures_util::future::future::FutureExt::now_or_never$|^tokio::time::timeout::Timeout::<T>::new'
+
+
+def seq_critical_coroutines(P):
+    """coroutine bodies that build a frame from a seq cell (or advance a guarded seq cell) and
+    can suspend afterwards: dropping such a future between the two loses a stamped frame."""
+    cor = P.coroutines()
+    out = {}
+    for p, f in sorted(P.fns.items()):
+        if p not in cor or f.crate not in ('ripd', 'rip_tools', 'rip_kernel', 'rip_provider_openresponses'):
+            continue
+        aggs = [(bi, si, st) for (bi, si, st) in f.aggregates(r'^rip_kernel::Event$') if op_const(st['rv']['a'][st['rv']['fields'].index('seq')]) is None]
+        if not aggs:
+            continue
+        ys = [bi for bi, b in enumerate(f.blocks) if b['t'].get('k') == 'yield']
+        hit = [(bi, y) for (bi, si, st) in aggs for y in ys if f.can_reach(bi, y)]
+        if hit:
+            out[p] = hit[0]
+    return out
+
+
+def c018(ctx):
+    P = ctx.prog
+    ctx.rule('C01.8', 'cancellation safety: a future that is raced and can be dropped before it completed (a branch polled by value from a select!/poll_fn closure, or the argument of timeout / select / abortable) must not reach a coroutine that stamps a frame from a seq cell and then awaits before the frame is delivered — dropping it there consumes the seq without a frame (a hole in the stream).')
+    SC = seq_critical_coroutines(P)
+    ctx.ob('C01.8', P.fn('ripd::tasks::TaskEmitter::emit'), 'positive-example', 'ripd::tasks::TaskEmitter::emit::{closure#0}' in SC,
+           'TaskEmitter::emit stamps the frame and then awaits the buffer lock: it is in the seq-critical set (%d coroutine(s): %s)' % (len(SC), ', '.join(sorted(SC))))
+    cor = P.coroutines()
+    sites = []
+    for p, f in sorted(P.fns.items()):
+        if f.crate not in ('ripd', 'rip_tools', 'rip_kernel', 'rip_provider_openresponses'):
+            continue
+        for s in f.sites():
+            if s.declared == 'core::future::future::Future::poll' and p not in cor and s.callee in cor:
+                # a poll from a plain closure: select! / poll_fn branch, polled by value
+                sites.append((f, s, s.callee, 'select!/poll_fn branch'))
+            elif re.search(RACERS, s.base) or re.search(RACERS, s.callee):
+                for a in s.args:
+                    o = f.origin(a)
+                    X = None
+                    if o[0] == 'call':
+                        b = P.async_body(o[1].callee)
+                        X = b.path if b is not None else None
+                    elif o[0] == 'rv' and o[1]['k'] == 'agg' and o[1].get('ak') == 'coroutine':
+                        X = o[1].get('def')
+                    if X:
+                        sites.append((f, s, X, s.name + ' argument'))
+    ctx.floor('C01.8', 'raced futures with a resolved coroutine body', len(sites), 2)
+    for f, s, X, how in sites:
+        ctx.touch(f)
+        par = P.reach_fns([X])
+        bad = sorted(x for x in par if x in SC)
+        ctx.ob('C01.8', f, 'raced:%s' % X.replace('ripd::', ''), not bad,
+               '%s %s: %s' % (how, X, 'reaches no seq-critical coroutine (%d functions)' % len(par) if not bad else
+                              'can be DROPPED while parked inside %s (frame stamped, seq consumed, not yet delivered): %s' % (bad[0], ' -> '.join(x.replace('ripd::', '') for x in P.chain(par, bad[0])))), line=s.line)
